@@ -108,13 +108,16 @@ TEXT = ("Bounded model checking of the real pixman-region.c (both the 16- and th
         "(union_o, intersect_o, subtract_o) and append_non_o produce exactly the x-spans set algebra requires, sorted and maximal, for "
         "bands of up to 3+3 rectangles; (b) every public operation on the paths that do not enter the general sweep (trivial-case "
         "shortcuts, copy, reset, clear, init_rect, init_with_extents, intersect_rect, inverse of empty) returns TRUE, the exact point "
-        "set (symbolic query point) and a canonical result, for all aliasing patterns tried.")
+        "set (symbolic query point) and a canonical result, for all aliasing patterns tried; (c) an assume-guarantee cut AROUND the sweep: with pixman_op "
+        "replaced by a contract stub (goto-instrument --replace-calls), union/intersect/subtract/inverse on arbitrary canonical operands of up to 2+2 (3+3 thorough) "
+        "rectangles: every return that does not enter the sweep is exact and canonical (no shortcut fires for operands it is not valid for), the sweep is "
+        "entered with the right operands, callback and append flags, and the extents post-processing is right for every aliasing pattern.")
 NOTE = ("The sweep driver pixman_op itself (band pairing, coalescing calls, result normalisation) and validate()/init_rects with >1 "
         "rectangle could not be encoded: symbolic execution of pixman_op does not finish or exhausts 20 GB even for 1+1 rectangles with a "
         "typed pool allocator (probes in DESIGN.md section 9); that part of the property is NOT claimed. Allocation in the region unit is "
         "routed to a pre-sized pool (allocator stub; realloc grows in place).")
 RULE = "C05 instance = (callback | API shortcut case) x rectangle counts x aliasing x 16/32 bit."
 BOUNDS = {"rectangles": "<= 3 per band / operand", "coordinates": "full 16/32-bit range"}
-OUTSIDE = ["pixman_op band sweep driver on general operands (not encodable: symex/memory blow-up)", "validate() / init_rects with more than one non-degenerate rectangle",
+OUTSIDE = ["pixman_op band sweep driver on general operands (not encodable: symex/memory blow-up, also with the band structure concrete and only x symbolic - harness C05/sweep.c kept unregistered)", "validate() / init_rects with more than one non-degenerate rectangle",
            "union_rect on non-empty regions (enters pixman_op)", "operands with more than 3 rectangles"]
 ASSUMPTIONS = ["operands are canonical (oracle predicate)", "intersect_rect/init_rect: width, height >= 1 (intersect_rect does not validate a degenerate rectangle and then yields a degenerate single-rectangle region: point set right, form not canonical; treated as caller error)", "inverse: non-degenerate box", "allocator stub: pre-sized pool, realloc in place, free no-op"]
